@@ -109,6 +109,17 @@ CHECKS.update({
         design='C08'),
 })
 
+CHECKS.update({
+    'C10': dict(
+        text='contact.get (with the mjx primitive collision functions it calls) is symbolically executed on plane + free-body scenes loaded by the real mjcf.loads. '
+             'Full mode (ALL link positions and per-geom elasticities symbolic, orientations exact rational unit quaternions): link attribution, elasticity mean, '
+             'plane-sphere and plane-capsule closed forms. Slice mode (one body on a symbolic line through an exact rational configuration): sphere-sphere closed form '
+             '(core), sphere-capsule witness-on-segment + optimality (extended), capsule-capsule informational.',
+        note='Bounds: 4 (quick) / 12 (thorough) scenes, 1-2 lines per scene. Distance cases use optimality conditions rather than a second algorithm; sphere-capsule '
+             'optimality holds up to 1e-9 m^2 because upstream mjx regularises the projection by 1e-6. Boxes / meshes / convex pairs outside.',
+        technique='symbolic execution of jaxprs (brax + mjx) to z3 real terms; QF_NRA with sqrt as constrained variables; solver-folded guards', design='C10'),
+})
+
 NOT_APPLICABLE = {
     'C16': 'whole-program finiteness of 11 environments over 200-1000-step histories with contact switching and float overflow: '
            'outside what a bounded real-arithmetic encoding can decide (DESIGN.md section 3)',
